@@ -37,17 +37,31 @@ Definition fp (ty : bytes) (l : option bytes) (tag : bytes) : option bool :=
       end
   end.
 
-Definition check_type (T : bytes) : bool :=
-  match lookup T all_layouts, lookup T specs with
-  | Some L, Some R => includes fp (uses L) 400 L R
-  | _, _ => false
+(* a specification is a finite union of expressions (gen/Specs.v); the analysis runs once per member *)
+Definition spec_lang (alts : list re) (w : list bytes) : Prop := exists R, In R alts /\ matches R w.
+
+Definition check_alts (T : bytes) (alts : list re) : bool :=
+  match lookup T all_layouts with
+  | Some L => forallb (fun R => includes fp (uses L) 400 L R) alts
+  | None => false
   end.
+Definition check_type (T : bytes) : bool :=
+  match lookup T specs with Some alts => check_alts T alts | None => false end.
 
-Definition results : list (bytes * bool) := map (fun p => (fst p, check_type (fst p))) specs.
-
+(* where the analysis gives up: the first member that is not proved, with the diagnostic *)
+Fixpoint first_failure (L : list stmt) (lax : bool) (alts : list re) : res aout :=
+  match alts with
+  | [] => Ok out_bot
+  | R :: r =>
+      match asexec fp (uses L) lax 400 L (start R) with
+      | Ok o => if (if lax then is_bot (o_next o) && is_bot (o_break o) && negb (o_ret o) else is_bot (o_next o) && is_bot (o_break o))
+                then first_failure L lax r else Ok o
+      | Fail c x => Fail c x
+      end
+  end.
 Definition why_type (T : bytes) : res aout :=
   match lookup T all_layouts, lookup T specs with
-  | Some L, Some R => asexec fp (uses L) 400 L (start R)
+  | Some L, Some alts => first_failure L false alts
   | _, _ => Fail 0 []
   end.
 
@@ -61,13 +75,34 @@ Definition inclusion_ok : bool :=
 
 (* the open types against the restricted specification (the specification minus the listed deviations) *)
 Definition check_restricted (T : bytes) : bool :=
-  match lookup T all_layouts, lookup T specs_restricted with
-  | Some L, Some R => includes fp (uses L) 400 L R
-  | _, _ => false
-  end.
+  match lookup T specs_restricted with Some alts => check_alts T alts | None => false end.
 Definition why_restricted (T : bytes) : res aout :=
   match lookup T all_layouts, lookup T specs_restricted with
-  | Some L, Some R => asexec fp (uses L) 400 L (start R)
+  | Some L, Some alts => first_failure L false alts
   | _, _ => Fail 0 []
   end.
 Definition restricted_ok : bool := forallb (fun p => check_restricted (fst p)) specs_restricted.
+
+(* ---- C09: every word of the specification with one mandatory element missing is rejected.
+   spec_deletions lists, per type, (what is missing, expression); the pair in deletion_open is not proved:
+   MT935 B.37H: rejected by the library (explicit check), but the analysis joins the counter of the 37H loop over the
+   two ways the text can continue and cannot tell *)
+Definition deletion_open : list (bytes * bytes) := [(bs "MT935", bs "B.37H")].
+Definition pair_mem (p : bytes * bytes) (l : list (bytes * bytes)) : bool :=
+  existsb (fun q => bytes_eqb (fst p) (fst q) && bytes_eqb (snd p) (snd q)) l.
+Definition check_deletion (T : bytes) (D : re) : bool :=
+  match lookup T all_layouts with
+  | Some L => excludes fp (uses L) 400 L D
+  | None => false
+  end.
+Definition why_deletion (T : bytes) (D : re) : res aout :=
+  match lookup T all_layouts with
+  | Some L => asexec fp (uses L) true 400 L (start D)
+  | None => Fail 0 []
+  end.
+Definition deletion_failures : list (bytes * bytes) :=
+  flat_map (fun p => map (fun d => (fst p, fst d))
+                         (filter (fun d => negb (pair_mem (fst p, fst d) deletion_open) && negb (check_deletion (fst p) (snd d))) (snd p)))
+           spec_deletions.
+Definition deletions_ok : bool :=
+  forallb (fun p => forallb (fun d => pair_mem (fst p, fst d) deletion_open || check_deletion (fst p) (snd d)) (snd p)) spec_deletions.
